@@ -116,7 +116,7 @@ func firstNew(n ast.Node) string {
 
 // ---------------------------------------------------------------- descriptors
 
-type mdesc struct{ Service, Name, Full, Kind, Req string }
+type mdesc struct{ Service, Name, Full, Kind, Req, Client, Handler string }
 
 func (c *c05) descriptors(f *ast.File) []mdesc {
 	var out []mdesc
@@ -162,7 +162,7 @@ func (c *c05) descriptors(f *ast.File) []mdesc {
 						c.note("descriptor %s: odd element in %s", svc, key)
 						continue
 					}
-					m := mdesc{Service: svc, Kind: "unary"}
+					m := mdesc{Service: svc, Kind: "unary", Client: strings.TrimSuffix(vs.Names[0].Name, "_ServiceDesc") + "DirectClient"}
 					handler := ""
 					ss, cs := false, false
 					for _, fe := range ml.Elts {
@@ -192,6 +192,7 @@ func (c *c05) descriptors(f *ast.File) []mdesc {
 						}
 					}
 					m.Full = "/" + svc + "/" + m.Name
+					m.Handler = handler
 					if hd := funcDecl(f, handler); hd != nil {
 						m.Req = firstNew(hd.Body)
 						if m.Req == "" {
@@ -893,7 +894,7 @@ func (c *c05) bulkFilter(f *ast.File) string {
 
 type gwm struct {
 	Client, Name, Full, Handler          string
-	ViaUnary, ViaStream, SrvStr, CliStr bool
+	ViaUnary, ViaStream, SrvStr, CliStr, Drops bool
 }
 
 func (c *c05) gateway(f *ast.File) []gwm {
@@ -910,6 +911,10 @@ func (c *c05) gateway(f *ast.File) []gwm {
 		g := gwm{Client: rt, Name: fd.Name.Name}
 		ast.Inspect(fd.Body, func(n ast.Node) bool {
 			switch x := n.(type) {
+			case *ast.GoStmt:
+				if c.src(x.Call.Fun) == "shim.streamServerInt" {
+					g.Drops = true
+				}
 			case *ast.CompositeLit:
 				t := c.src(x.Type)
 				if t == "grpc.UnaryServerInfo" || t == "grpc.StreamServerInfo" {
@@ -1122,8 +1127,8 @@ func genAuthTables(x *Ctx) (string, interface{}, error) {
 	b.WriteString("import Grip.Model.C05Tables\n\nnamespace GripGen.AuthTables\nopen Grip.C05\n\n")
 	var ms []string
 	for _, m := range descs {
-		ms = append(ms, fmt.Sprintf("{ service := %s, name := %s, full := %s, kind := .%s, reqType := %s }",
-			leanStr(m.Service), leanStr(m.Name), leanStr(m.Full), m.Kind, leanStr(m.Req)))
+		ms = append(ms, fmt.Sprintf("{ service := %s, name := %s, full := %s, kind := .%s, reqType := %s, client := %s, handler := %s }",
+			leanStr(m.Service), leanStr(m.Name), leanStr(m.Full), m.Kind, leanStr(m.Req), leanStr(m.Client), leanStr(m.Handler)))
 	}
 	b.WriteString("def methods : List MethodDesc := " + leanList(ms, "") + "\n\n")
 	var mml []string
@@ -1151,8 +1156,8 @@ func genAuthTables(x *Ctx) (string, interface{}, error) {
 	b.WriteString("def bulk : BulkFilter := " + bulk + "\n\n")
 	var gwl []string
 	for _, g := range gw {
-		gwl = append(gwl, fmt.Sprintf("{ client := %s, name := %s, full := %s, viaUnary := %s, viaStream := %s, isServerStream := %s, isClientStream := %s, handler := %s }",
-			leanStr(g.Client), leanStr(g.Name), leanStr(g.Full), leanBool(g.ViaUnary), leanBool(g.ViaStream), leanBool(g.SrvStr), leanBool(g.CliStr), leanStr(g.Handler)))
+		gwl = append(gwl, fmt.Sprintf("{ client := %s, name := %s, full := %s, viaUnary := %s, viaStream := %s, isServerStream := %s, isClientStream := %s, handler := %s, dropsError := %s }",
+			leanStr(g.Client), leanStr(g.Name), leanStr(g.Full), leanBool(g.ViaUnary), leanBool(g.ViaStream), leanBool(g.SrvStr), leanBool(g.CliStr), leanStr(g.Handler), leanBool(g.Drops)))
 	}
 	b.WriteString("def gateway : List GwMethod := " + leanList(gwl, "") + "\n\n")
 	var regl, dcl []string
